@@ -256,6 +256,12 @@ SCOPE_TEMPLATES = [
     '(t := amount * 2) > lim and t < 1000',
     'next((r.item for r in orders if r.n > %(k)d), "none")',
     'next((r.n for r in orders if r.n > 5), %(n)s)',
+    # the FIRST element decides, whatever it is: 0, false and "" are elements like any other, not "nothing found"
+    'next((r.n - 1 for r in orders), %(n)s)',
+    'next((r.n - %(k)d - 1 for r in orders if r.n > %(k)d), 9)',
+    'next((r.item == "zzz" for r in orders), true)',
+    'next((trim("  ") for r in orders), "none")',
+    'next((r.amount * 0 for r in orders if r.n > %(k)d), lim)',
     '[r.item for r in orders][%(k)d] if len(orders) > %(k)d else "-"',
     'any(r.n == %(k)d for r in orders) and all(r.amount > 0 for r in orders)',
     'max(r.amount for r in orders) if orders else 0',
